@@ -20,6 +20,11 @@ def families(tier, seed):
                 if tier == "thorough":
                     out.append(dict(tag=f"{tag}/{T}/{dt}/heun", features=dict(feats, dt=dt), kind="run", model=model, T=T, dt=dt,
                                     dts=None, solver="heun", vec=vec))
+    # two parallel edges between one pair of variables with different delays (fixed witness of a listed finding)
+    tag_, feats_, model_ = gen.parallel_delay_model("gamma")
+    for vec in (False, True):
+        T_, dt_ = (0.5, 0.01)
+        out.append(dict(tag=f"{tag_}/{T_}/{dt_}", features=dict(feats_, dt=dt_), kind="run", model=model_, T=T_, dt=dt_, dts=None, solver="euler", vec=vec))
     # Connectivity (matrix) edges: same meaning as on scalar edges (C16 has the full population family)
     for tag, feats, ps in gen.c16_cases(seed):
         if tag.startswith("P6"):
@@ -71,6 +76,18 @@ def main():
     fb = kernel_fallback(chk)
     chk.run_contracts("contracts.c11", fallback={"*": fb})
     for f in fb():
+        chk.report_failure(f)
+    # "vectorized and non-vectorized forms agree": the helper that decides whether the kernel output / the buffered source is
+    # indexed when it is delivered to the grouped targets (contract shared with C04 / C06)
+    from checks import c06 as _c06
+    cache6 = {}
+
+    def fb6():
+        if "r" not in cache6:
+            cache6["r"] = [dict(f, site="C11/_get_indexed_var_str") for f in _c06.indexed_var_native(chk)]
+        return cache6["r"]
+    chk.run_contracts("contracts.c06", fallback={"*": fb6})
+    for f in fb6():
         chk.report_failure(f)
     _cases = families(chk.tier, chk.seed)
     _results = driver.run_family(
